@@ -1,2 +1,121 @@
+(* C01/Examples.v — non-vacuity: concrete, non-trivial fonts meeting every
+   hypothesis of every theorem of Props.v, evaluated; and the witnesses of the
+   statements that are false of the faithful model (the recorded findings). *)
 From Coq Require Import List NArith ZArith Bool.
-From C01 Require Import Str Model.
+From Common Require Import Outcome.
+From Gen Require C01.
+From C01 Require Import Str Model Spec Model2.
+Import ListNotations.
+Local Open Scope Z_scope.
+
+Definition S (l : list Z) : str := map Z.to_N l.
+Definition ex_outl_cff : outl :=
+  mkOutl true 77 3 [0; 712; 480] (Some [500; 600; 0]) None None.
+Definition ex_outl_glyf : outl :=
+  mkOutl false 78 3 [0; 1480; 1086] (Some [1536; 1479; 1139]) (Some 5%N) (Some 6%N).
+Definition ex_cmap : cmapv := mkCmap 9 true 1 2 (Some 11%N).
+
+(* a deliberately inconsistent value: REGULAR together with bold, slanted but
+   not italic, weight class 650 (rounds to Bold), version 0x0001028F, a
+   negative cap height, fractional underline, no GSUB *)
+Definition ex_font : font :=
+  mkFont (S [70;111;111]) 3 650 true true false false true true 1 66191 (Some 1700000000) None
+    (S [100]) [] (S [194;169;32;88]) [] [] [] 7 1000 800 (-200) 90 (-5) 0 (-786432) (-6586368) 3309568
+    ex_outl_cff (Some ex_cmap) None None (Some 4%N).
+
+(* tables of a file whose OS/2 weight class is 700 without any bold flag *)
+Definition ex_tables_weight700 : tables :=
+  mkTables false
+    (Some (mkHead 65536 1000 (Some 1700000000) (Some 1700000000) false false))
+    (Some (mkHmtx 800 (-200) 100 0 (Some [1536; 1479; 1139])))
+    (Some (3%N, Some 6%N))
+    (Some (mkOs2 700 5 false false false false 800 (-200) 100 700 500 0 1 0))
+    (Some ex_cmap)
+    (Some (mkNames (Some (mkName (S [84;101;115;116]) (S [72;101;97;118;121]) [] [] [] [] [] [] None [] (S [86;101;114;115;105;111;110;32;49;46;48;48;48]) [] [])) 3 None 0))
+    (Some (mkPost 0 (-100) 50 false None))
+    None
+    (mkOutl false 78 3 [0; 1480; 1086] None None None)
+    None (Some 2%N) None None.
+
+Example ex_in_range : in_range ex_font = true /\ has_timestamp ex_font = true.
+Proof. vm_compute. split; reflexivity. Qed.
+
+Example ex_not_canonical : canonical ex_font = false.
+Proof. vm_compute. reflexivity. Qed.
+
+(* the cycle changes this font (so read_write_normal_form is not an identity
+   statement) and reaches the normal form *)
+Example ex_cycle :
+  exists t, M_cycle ex_font = Ok (t, normalize ex_font) /\ normalize ex_font <> ex_font
+            /\ f_bold (normalize ex_font) = true /\ f_regular (normalize ex_font) = false
+            /\ f_italic (normalize ex_font) = true /\ f_script (normalize ex_font) = false
+            /\ f_cap (normalize ex_font) = 712 /\ f_gsub (normalize ex_font) = Some 11%N
+            /\ f_perm (normalize ex_font) = 0 /\ f_version (normalize ex_font) = 66191%N.
+Proof.
+  exists (match M_cycle ex_font with Ok (t, _) => t | _ => ex_tables_weight700 end).
+  vm_compute. repeat split; try reflexivity. discriminate.
+Qed.
+
+Example ex_subfamily :
+  subfamily ex_font = S [67;111;110;100;101;110;115;101;100;32;66;111;108;100]   (* "Condensed Bold" *)
+  /\ n_version (M_write_name ex_font) = S [86;101;114;115;105;111;110;32;49;46;48;49;48]. (* "Version 1.010" *)
+Proof. vm_compute. split; reflexivity. Qed.
+
+(* a canonical TrueType font *)
+Definition ex_canonical : font :=
+  mkFont (S [84;101;115;116]) 5 700 false true true false false true 3 131072 (Some 0) (Some 1700000000)
+    [] [] [] [] [] [] 2 2048 1900 (-500) 0 1480 1086 (-720896) (-6553600) 3276800
+    ex_outl_glyf (Some ex_cmap) (Some 1%N) (Some 2%N) None.
+
+Example ex_canonical_ok : in_range ex_canonical = true /\ canonical ex_canonical = true.
+Proof. vm_compute. split; reflexivity. Qed.
+
+Example ex_canonical_cycle : exists t, M_cycle ex_canonical = Ok (t, ex_canonical).
+Proof.
+  exists (match M_cycle ex_canonical with Ok (t, _) => t | _ => ex_tables_weight700 end).
+  vm_compute. reflexivity.
+Qed.
+
+(* ---- recorded findings: witnesses ---- *)
+
+Example merge_result_normal_refuted :
+  exists f0, M_read_merge ex_tables_weight700 = Ok f0 /\ tables_decoded ex_tables_weight700 = true
+             /\ underline_settled f0 = true /\ in_range f0 = true
+             /\ f_bold f0 = false /\ f_bold (normalize f0) = true.
+Proof.
+  exists (match M_read_merge ex_tables_weight700 with Ok f => f | _ => ex_font end).
+  vm_compute. repeat split; reflexivity.
+Qed.
+
+(* a timestamp at the origin of the head clock does not come back *)
+Example timestamp_1904_refuted :
+  let f := mkFont (S [84]) 5 400 true false false false false false 0 65536 None (Some (-2082844800))
+             [] [] [] [] [] [] 0 1000 800 (-200) 0 700 500 0 0 0 ex_outl_glyf None None (Some 1%N) None in
+  in_range f = true /\ has_timestamp f = true /\
+  exists t f1, M_cycle f = Ok (t, f1) /\ f_mtime f1 = None.
+Proof.
+  cbv zeta. split; [vm_compute; reflexivity|]. split; [vm_compute; reflexivity|].
+  match goal with |- exists t f1, M_cycle ?f = _ /\ _ =>
+    exists (match M_cycle f with Ok (t, _) => t | _ => ex_tables_weight700 end);
+    exists (match M_cycle f with Ok (_, f1) => f1 | _ => ex_font end) end.
+  vm_compute. split; reflexivity.
+Qed.
+
+(* outside C01 (name.Info with more than one language, property C14): the
+   string storage of the name table does follow the map iteration order *)
+Example name_storage_follows_iteration_order :
+  let mac : ntables := [(S [100;101], [(1%N, S [65])]); (S [102;114], [(1%N, S [66])])] in
+  let o1 := [(2%N, S [100;101]); (1%N, S [102;114])] in
+  let o2 := [(1%N, S [102;114]); (2%N, S [100;101])] in
+  snd (M_name_encode (fun s => s) (fun s => s) o1 [] 1 mac []) <>
+  snd (M_name_encode (fun s => s) (fun s => s) o2 [] 1 mac []).
+Proof. vm_compute. discriminate. Qed.
+
+(* the table map: an iteration order and its reverse *)
+Example ex_table_map :
+  let d := mkWdata false 1 (Some 2%N) (Some 3%N) 4 5 6 7 8 9 10 None (Some 11%N) None in
+  let e1 := [(1668707360, 20); (1718642541, 21); (1886545264, 22)]%N in
+  forallb (fun tag => match tm_get tag (M_table_map d e1), tm_get tag (M_table_map d (rev e1)) with
+                      | Some a, Some b => (a =? b)%N | None, None => true | _, _ => false end)
+          [tag_head; tag_glyf; 1668707360; 1718642541; 1886545264; tag_CFF]%N = true.
+Proof. vm_compute. reflexivity. Qed.
